@@ -109,7 +109,7 @@ def raw_ndim(term, shape, flat):
     return np.ndim(src[term_to_py(term)])
 
 
-def rand_term(rng, shape, forms=None, nonscalar=False):
+def rand_term(rng, shape, forms=None, nonscalar=False, allow_bare=True):
     """random valid (term, flat) for a source shape; result size 1..4.  nonscalar: the raw NumPy result must have
     at least one dimension (OpenMDAO does not re-shape a 0-d intermediate result of a src_indices chain to (1,):
     a following indexer then fails with 'invalid index to scalar variable' - observed, kept out of scope)"""
@@ -138,6 +138,18 @@ def rand_term(rng, shape, forms=None, nonscalar=False):
             if not flat and len(shape) == 1 and t['k'] in ('arr', 'slice') and rng.random() < .3:
                 t = t_tuple([t])
         else:
+            if allow_bare and rng.random() < .25:
+                # a bare (non-tuple) int / slice / array indexes the FIRST axis of a non-flat N-d source
+                t = rand_axis_term(rng, shape[0])
+                try:
+                    pos, rshape = np_positions(t, shape, flat)
+                except (IndexError, ValueError):
+                    continue
+                if nonscalar and raw_ndim(t, shape, flat) == 0:
+                    continue
+                if 1 <= len(pos) <= 4 and len(rshape) <= 2:
+                    return t, flat, pos, rshape
+                continue
             axes = [rand_axis_term(rng, n) for n in shape]
             if form == 'ell':
                 axes = [t_ell(), rand_axis_term(rng, shape[-1])]
@@ -217,6 +229,8 @@ def generate(rng, opts=None):
     comps.append(ivc)
     for c in range(1, ncomp + 1):
         kind = 'impl' if (o.implicit is not False and rng.random() < (o.implicit or .25)) else 'expl'
+        if o.bil and rng.random() < o.bil:
+            kind = 'bil'
         comp = {'id': c, 'name': 'c%d' % c, 'group': place[c], 'kind': kind, 'ins': [], 'outs': [],
                 'A': [], 'b': [], 'd': [], 'storage': []}
         nin = rng.randrange(1, 3)
@@ -239,9 +253,10 @@ def generate(rng, opts=None):
             ins.append({'id': iid, 'comp': c, 'name': 'a%d' % k, 'shape': ishape, 'units': up[1], 'src': src['id'],
                         'chain': chain, 'fac': rj(up[2]), 'off': rj(up[3]), 'how': 'connect'})
             comp['ins'].append(iid)
-        nout = rng.randrange(1, 3)
+        nout = 2 if kind == 'bil' else rng.randrange(1, 3)
+        bil_shape = rng.choice([[1], [2]])
         for k in range(nout):
-            shape = rng.choice(SHAPES)
+            shape = bil_shape if kind == 'bil' else rng.choice(SHAPES)
             size = int(np.prod(shape))
             oid = len(outs)
             units = rng.choice([None, None, 'm', 'km', 'degC', 'h']) if o.units is not False else None
@@ -253,6 +268,8 @@ def generate(rng, opts=None):
                 isz = int(np.prod(ins[iid]['shape']))
                 A = [[rng.choice([0, 0, 1, 1, -1, 2]) for _ in range(isz)] for _ in range(size)]
                 st = rng.choice(o.storage or STORAGE[:7])
+                if kind == 'bil':
+                    st = 'dense'
                 if st == 'diag' and (isz != size):
                     st = 'dense'
                 if st == 'diag':
@@ -262,7 +279,13 @@ def generate(rng, opts=None):
             comp['A'].append(rowA)
             comp['storage'].append(rowS)
             comp['b'].append([rng.randrange(-2, 3) for _ in range(size)])
-            comp['d'].append([rng.choice([1, 1, 2, -1, 4]) if kind == 'impl' else 1 for _ in range(size)])
+            comp['d'].append([rng.choice([1, 1, 2, -1, 4]) if kind in ('impl', 'bil') and not (kind == 'bil' and k == 1) else 1
+                              for _ in range(size)])
+            if kind == 'bil':
+                comp['mf'] = rng.random() < .5          # matrix-free (apply_linear reads the state) or declared partials
+                if k == 0:
+                    # keep the first state away from zero (it divides the second residual equation)
+                    comp['b'][0] = [rng.choice([3, 5, -5, 7]) for _ in range(size)]
         comps.append(comp)
     md = {'comps': comps, 'outs': outs, 'ins': ins, 'groups': gpaths, 'cycle': False,
           'solvers': {}, 'desvars': [], 'responses': []}
@@ -277,7 +300,7 @@ def add_cycle(rng, md, tries=30):
     """add one feedback edge (a later component's output feeds an earlier component) if an exactly solvable,
     moderately sized one is found; marks md['cycle'] and returns True"""
     comps = [c for c in md['comps'] if c['kind'] != 'ivc']
-    if len(comps) < 2:
+    if len(comps) < 2 or any(c['kind'] == 'bil' for c in comps):
         return False
     import copy
     for _ in range(tries):
@@ -389,8 +412,13 @@ def assign_solvers(rng, md, nl=None, ln=None, jac=None):
             lnn, lo = 'direct', {'assemble_jac': False}
         sv[gp] = {'nl': {'name': nln, 'opts': {'err_on_non_converge': True}},
                   'ln': {'name': lnn, 'opts': dict(lo, **({} if lnn in ('direct', 'runonce') else {'err_on_non_converge': True}))}}
+    # sub-groups may carry their own linear solver (assembled or recursing) below any kind of parent solver
+    for gp in md['groups']:
+        if gp and gp not in sv and rng.random() < .4:
+            lnn, lo = rng.choice(LN_ANY)
+            sv[gp] = {'nl': None, 'ln': {'name': lnn, 'opts': dict(lo, **({} if lnn in ('direct', 'runonce') else {'err_on_non_converge': True}))}}
     if '' not in sv:
-        lnn, lo = ln or rng.choice(LN_ANY)
+        lnn, lo = ln or rng.choice(LN_ANY + [('krylov', {}), ('lnbj', {})])
         sv[''] = {'nl': None, 'ln': {'name': lnn, 'opts': dict(lo, **({} if lnn in ('direct', 'runonce') else {'err_on_non_converge': True}))}}
     if jac:
         md['jac'] = jac
@@ -434,6 +462,29 @@ def add_promotions(rng, md, frac=.5):
         i['plevels'] = [{'link': l, 'alias': 'p%d_%s' % (i['id'], i['name'])} for l in reversed(plinks)]
         if list(i['shape']) != list(shape):
             resize_input(md, i, shape, rng)
+    return md
+
+
+def add_shared_promotes(rng, md, prob=.35):
+    """one promotes() call giving the SAME src_indices to two inputs of a component whose sources differ in size"""
+    outs = md['outs']
+    for c in md['comps']:
+        cand = [md['ins'][iid] for iid in c['ins'] if md['ins'][iid].get('how', 'connect') == 'connect'
+                and not md['ins'][iid]['name'].startswith('fb')]
+        if len(cand) < 2 or rng.random() > prob:
+            continue
+        a, b = cand[0], cand[1]
+        sa, sb = int(np.prod(outs[a['src']]['shape'])), int(np.prod(outs[b['src']]['shape']))
+        k = rng.randrange(1, min(2, sa, sb) + 1)
+        term = t_arr([rng.randrange(-min(sa, sb), 0) for _ in range(k)]) if rng.random() < .7 else t_slice(-k, None, None)
+        for i in (a, b):
+            src = outs[i['src']]
+            pos, rshape = np_positions(term, src['shape'], True)
+            i['how'] = 'promote_shared'
+            i['share'] = {'id': 'sh%d' % c['id'], 'term': term, 'alias': 's%d_%s' % (i['id'], i['name'])}
+            i['chain'] = [{'idx': term, 'shape': list(src['shape']), 'flat': True}]
+            if list(i['shape']) != list(rshape):
+                resize_input(md, i, rshape, rng)
     return md
 
 
@@ -488,7 +539,7 @@ def add_output_scaling(rng, md, frac=.7):
     return md
 
 
-def add_vois(rng, md, scaling=True, indices=True):
+def add_vois(rng, md, scaling=True, indices=True, bare_nd=False):
     """design variables on the independent outputs, responses on some component outputs"""
     dvs, rs = [], []
     for oid in md['comps'][0]['outs']:
@@ -496,7 +547,7 @@ def add_vois(rng, md, scaling=True, indices=True):
         dv = {'name': None, 'oid': oid, 'indices_term': None, 'flat_indices': False, 'scaler': None, 'adder': None,
               'ref': None, 'ref0': None}
         if indices and rng.random() < .5:
-            t, flat, pos, rshape = rand_term(rng, o['shape'], ['arr', 'slice', 'neg', 'tuple'])
+            t, flat, pos, rshape = rand_term(rng, o['shape'], ['arr', 'slice', 'neg', 'tuple'], allow_bare=bare_nd)
             if len(set(pos)) == len(pos):
                 dv['indices_term'], dv['flat_indices'] = t, flat
         if scaling:
@@ -508,7 +559,7 @@ def add_vois(rng, md, scaling=True, indices=True):
         r = {'name': None, 'oid': o['id'], 'indices_term': None, 'flat_indices': False, 'scaler': None, 'adder': None,
              'ref': None, 'ref0': None, 'type': 'con', 'lower': 0}
         if indices and rng.random() < .5:
-            t, flat, pos, rshape = rand_term(rng, o['shape'], ['arr', 'slice', 'neg', 'tuple', 'rep'])
+            t, flat, pos, rshape = rand_term(rng, o['shape'], ['arr', 'slice', 'neg', 'tuple', 'rep'], allow_bare=bare_nd)
             r['indices_term'], r['flat_indices'] = t, flat
         if scaling:
             _rand_scaling(rng, r)
@@ -608,14 +659,51 @@ def reference(md, xvals=None):
                         if a != 0:
                             G[row][off[inp['src']] + p] += a * fac
                             cvec[row] += a * of_
-    # solve (Dm - G) y = cvec exactly, and (Dm - G) J = E (unit columns at ivc rows)
-    M = [[Dm[i][j] - G[i][j] for j in range(N)] for i in range(N)]
-    rhs = [[cvec[i]] + [F(1) if i == col else F(0) for col in ivc_cols] for i in range(N)]
-    sol = gauss(M, rhs)
-    if sol is None:
-        return None
-    y = [sol[i][0] for i in range(N)]
-    J = [[sol[i][1 + k] for k in range(len(ivc_cols))] for i in range(N)]
+    has_bil = any(c['kind'] == 'bil' for c in comps)
+    rhsJ = [[F(1) if i == col else F(0) for col in ivc_cols] for i in range(N)]
+    if not has_bil:
+        # solve (Dm - G) y = cvec exactly, and (Dm - G) J = E (unit columns at ivc rows)
+        M = [[Dm[i][j] - G[i][j] for j in range(N)] for i in range(N)]
+        rhs = [[cvec[i]] + rhsJ[i] for i in range(N)]
+        sol = gauss(M, rhs)
+        if sol is None:
+            return None
+        y = [sol[i][0] for i in range(N)]
+        J = [[sol[i][1 + k] for k in range(len(ivc_cols))] for i in range(N)]
+    else:
+        # bilinear components (feed-forward models only): r0 = d0*y0 - (A0 x + b0), r1 = y0*y1 - (A1 x + b1).
+        # forward evaluation, then the linear system of the linearisation AT the converged state
+        if md.get('cycle'):
+            return None
+        y = [F(0)] * N
+        for cid in eval_order(md):
+            c = comps[cid]
+            for ko, oid in enumerate(c['outs']):
+                for r in range(osz[oid]):
+                    row = off[oid] + r
+                    if c['kind'] == 'ivc':
+                        y[row] = cvec[row]
+                        continue
+                    rhs_r = cvec[row] + sum((G[row][j] * y[j] for j in range(N) if G[row][j] != 0), F(0))
+                    if c['kind'] == 'bil' and ko == 1:
+                        y0 = y[off[c['outs'][0]] + r]
+                        if y0 == 0:
+                            return None
+                        y[row] = rhs_r / y0
+                    else:
+                        y[row] = rhs_r / Dm[row][row]
+        M = [[Dm[i][j] - G[i][j] for j in range(N)] for i in range(N)]
+        for c in comps:
+            if c['kind'] == 'bil':
+                o0, o1 = c['outs']
+                for r in range(osz[o1]):
+                    row = off[o1] + r
+                    M[row][row] = y[off[o0] + r]          # d r1 / d y1 = y0
+                    M[row][off[o0] + r] += y[row]         # d r1 / d y0 = y1
+        sol = gauss(M, rhsJ)
+        if sol is None:
+            return None
+        J = [[sol[i][k] for k in range(len(ivc_cols))] for i in range(N)]
     outv = [y[off[o]:off[o + 1]] for o in range(len(outs))]
     inv = []
     for inp in ins:
